@@ -1,6 +1,6 @@
 (* C06 -- server event buffer.  Two layers:
    (1) the event LOG (abstract view used by Cs104/Server.v): theorems below, for every history;
-   (2) the byte-offset RING (Cs104/MsgQueue.v, transcription of MessageQueue_*): executed against the C
+   (2) the byte-offset RING (Cs104/MsgQueue.v, transcription of the MessageQueue functions): executed against the C
        functions operation by operation on every run, and checked against the abstract log by the oracle.
    PARTIAL: the ring invariant ("the walk from firstEntry to lastEntry visits exactly the log, in order,
    inside the arena") is not proved in Coq; the refinement ring -> log is checked at run time only. *)
@@ -10,20 +10,20 @@ Import ListNotations.
 Local Open Scope Z_scope.
 
 (* what is handed out for transmission is the OLDEST waiting entry; exactly it becomes "sent" *)
-Theorem C06_next_is_oldest_waiting : forall q e q', mq_next_waiting q = Some (e, q') ->
+Theorem C06_next_is_oldest_waiting : forall q e q', Server.mq_next_waiting q = Some (e, q') ->
   exists pre post, q = pre ++ e :: post /\ q_st e = Server.QWAIT /\ Forall (fun x => q_st x <> Server.QWAIT) pre /\
                    q' = pre ++ {| q_id := q_id e; q_asdu := q_asdu e; q_st := Server.QSENT |} :: post.
 Proof. exact next_waiting_spec. Qed.
 
 (* when a connection ends every sent-but-unacknowledged entry waits again; ids, octets and order untouched *)
 Theorem C06_loss_rearms : forall q,
-  map q_id (mq_reset_waiting q) = map q_id q /\ map q_asdu (mq_reset_waiting q) = map q_asdu q /\
-  Forall (fun x => q_st x <> Server.QSENT) (mq_reset_waiting q) /\
-  Forall2 (fun a b => q_st b = (if q_st a =? Server.QSENT then Server.QWAIT else q_st a)) q (mq_reset_waiting q).
+  map q_id (Server.mq_reset_waiting q) = map q_id q /\ map q_asdu (Server.mq_reset_waiting q) = map q_asdu q /\
+  Forall (fun x => q_st x <> Server.QSENT) (Server.mq_reset_waiting q) /\
+  Forall2 (fun a b => q_st b = (if q_st a =? Server.QSENT then Server.QWAIT else q_st a)) q (Server.mq_reset_waiting q).
 Proof. exact reset_waiting_spec. Qed.
 
 (* acknowledging an id kills it ... *)
-Theorem C06_ack_kills : forall id q, NoDup (map q_id q) -> dead id (mq_mark id q).
+Theorem C06_ack_kills : forall id q, NoDup (map q_id q) -> dead id (Server.mq_mark id q).
 Proof. exact dead_after_mark. Qed.
 (* ... and a dead id is never handed out again along ANY later history of enqueue / next / ack / loss *)
 Theorem C06_acked_never_resent : forall ops s id, LInv s -> id < snd s -> dead id (fst s) ->
